@@ -332,6 +332,18 @@ def run(project, chk):
             chk.check(not bad, "X3", fi.short, norm_text(node.ast), project.loc(m, node.ast), f"no write precedes a rule being counted '{k}' (rules not adjusted are left unchanged)", how="no normal path from a write node to this increment within the iteration",
                       message=f"a declaration can be rewritten on a path that then counts the rule as '{k}'")
 
+    # ------------------------------------------------------------ X9: judging a rule does not depend on the rules judged before it
+    chk.rule("X9", "no function the per-rule processing reaches keeps state between calls in a mutable default argument (e.g. a `visited` set shared by every var() resolution)")
+    from sa.effects import Effects as _Eff, shared_default_state
+    _eff = _Eff(project)
+    _closure = _eff.reach(PNR) | {PNR}
+    _shared = shared_default_state(project, _eff, _closure)
+    for f2, pn, dn, sites in _shared:
+        chk.fail("X9", f2.short, f"{pn}={norm_text(dn)}", project.loc(f2.module, dn),
+                 f"{f2.name} mutates its mutable default argument {pn}={norm_text(dn)} (line(s) {sorted({getattr(x, 'lineno', 0) for x in sites})}): what a rule's colour resolves to depends on the rules processed before it, so rules are reported as readable / adjusted against the wrong colour")
+    if not _shared:
+        chk.ok("X9", f"{project.loc(fi.module, fi.node)} {fi.short}", f"none of the {len(_closure)} functions reachable from the rule-processing function mutates a mutable default argument", "default-argument census over the call closure with EFF's parameter-mutation summaries")
+
     # ------------------------------------------------------------ X8: rules needing attention are listed by selector
     chk.rule("X8", "every path that counts a rule as 'failed' appends a record with the rule's selector to failed_details")
     fail_appends = set()
